@@ -92,8 +92,9 @@ def cells_chunk(task):
 
 
 def n1_task(bx):
-    lo, up = box(bx, 1)
-    ev = Evolvent(np.array(lo, dtype=np.double), np.array(up, dtype=np.double), 1, 10)
+    from mc.env import n1_bounds
+    lo, up, lo_arr, up_arr = n1_bounds(bx)
+    ev = Evolvent(lo_arr, up_arr, 1, 10)
     msgs = []
     K = 1 << 10
     side = up[0] - lo[0]
@@ -208,7 +209,8 @@ def run(ctx):
         for msg in msgs:
             res.add_violation(dict(driver="cells", **t, message=msg, sig={}))
     n1 = 0
-    for bx, (k, msgs) in zip(BOXES, pmap(n1_task, list(BOXES))):
+    from mc.env import N1_EXTRA
+    for bx, (k, msgs) in zip(BOXES + N1_EXTRA, pmap(n1_task, list(BOXES + N1_EXTRA))):
         n1 += k
         for msg in msgs:
             res.add_violation(dict(driver="n1", box=bx, message=msg, sig={}))
